@@ -41,13 +41,17 @@ int main(int argc, char **argv)
 	if(argc < 2)
 		return 2;
 	FILE *out = fopen(argv[1], "w");
-	static const int ts[] = {0, 1}, tys[] = {0, 1, 65534}, szs[] = {0, 1, 2, 32, 33, 40};
+	static const int ts[] = {0, 1}, tys[] = {0, 1, 65534}, szs[] = {0, 1, 32, 33, 40};
 	for(unsigned a = 0; a < 2; ++a)
 		for(unsigned ti = 0; ti < 2; ++ti)
 			for(unsigned yi = 0; yi < 3; ++yi)
-				for(unsigned si = 0; si < 6; ++si) {
+				for(unsigned si = 0; si < 5; ++si) {
 					int sz = szs[si];
-					int npat = sz ? 3 : 1;
+					/* contents: all 7s; first byte larger / smaller; last byte smaller / larger; and (two-part payloads) head larger with
+					 * tail smaller, head smaller with tail larger - the pairs on which a piecewise comparison of the 32-byte base
+					 * area and the continuation disagrees with a comparison of the whole payload.  The last byte of a 33/40 byte
+					 * payload lies beyond the base area. */
+					int npat = sz == 0 ? 1 : sz == 1 ? 3 : 7;
 					for(int p = 0; p < npat; ++p) {
 						struct evd *e = &D[nD++];
 						e->t = ts[ti];
@@ -55,11 +59,17 @@ int main(int argc, char **argv)
 						e->ty = tys[yi];
 						e->sz = sz;
 						memset(e->pl, 7, sizeof(e->pl));
-						/* patterns differ in the first byte (p=1) or in the last byte (p=2): the last byte
-						 * of a 33/40 byte payload lies beyond the 32-byte base area */
-						if(p == 1)
+						if(sz == 1) {
+							e->pl[0] = p == 1 ? 255 : p == 2 ? 0 : 7;
+							continue;
+						}
+						if(p == 1 || p == 5)
 							e->pl[0] = 255;
-						if(p == 2)
+						if(p == 2 || p == 6)
+							e->pl[0] = 0;
+						if(p == 3 || p == 6)
+							e->pl[sz - 1] = 255;
+						if(p == 4 || p == 5)
 							e->pl[sz - 1] = 0;
 					}
 				}
